@@ -707,6 +707,58 @@ func runC09(c *Ctx) {
 					base += left
 				}
 			}
+			// two results over the same bases are independent of each other: the
+			// first is closed, the sources change, the second follows them; and the
+			// result is a descendant of the POD controller: closing only the service
+			// controller does not close it
+			{
+				jcA, errA := join.IngressPods(ctx, ing.raw.(tingress.Controller), svc.raw.(tservice.Controller), pod.raw.(tpod.Controller))
+				jcB, errB := join.IngressPods(ctx, ing.raw.(tingress.Controller), svc.raw.(tservice.Controller), pod.raw.(tpod.Controller))
+				if errA != nil || errB != nil {
+					problems = append(problems, fmt.Sprintf("two IngressPods results over the same bases: %v %v", errA, errB))
+					return
+				}
+				jA, jB := wrap_pod(jcA), wrap_pod(jcB)
+				verifyB := func(stage string) {
+					pert.Barrier()
+					got, _ := jB.listIDs()
+					ings, svcs, pods := ingSrv.Objects(), svcSrv.Objects(), podSrv.Objects()
+					var sel []*Obj
+					for _, s := range svcs {
+						if joinSelects(15, ings, s, true) {
+							sel = append(sel, s)
+						}
+					}
+					if want := joinExpected(12, sel, pods, true); !sameInts(got, want) {
+						problems = append(problems, fmt.Sprintf("%s: the second IngressPods result holds %v; pods of services named by an ingress are %v", stage, got, want))
+					}
+				}
+				verifyB("two results, both open")
+				jA.closeFn()
+				pert.Barrier()
+				if isClosed(jB.done()) {
+					problems = append(problems, "closing one IngressPods result closed another one over the same bases")
+				}
+				for v := 0; v < 6; v++ {
+					ingSrv.Put(proto(KIngress, 1, 1+v%2, v))
+					svcSrv.Put(proto(KService, 1, 1+v%3, 5-v))
+					verifyB(fmt.Sprintf("after the first result was closed, change %d", v))
+				}
+				svc.closeFn()
+				pert.Barrier()
+				time.Sleep(time.Millisecond)
+				sched.Settle()
+				if isClosed(jB.done()) {
+					problems = append(problems, "closing the service controller closed the IngressPods result, a descendant of the pod controller")
+				}
+				if isClosed(pod.done()) || isClosed(ing.done()) {
+					problems = append(problems, "closing the service controller stopped the pod or the ingress controller")
+				}
+				jB.closeFn()
+				pert.Barrier()
+				time.Sleep(time.Millisecond)
+				sched.Settle()
+			}
 			// a base controller that has stopped: the constructor fails and
 			// leaves nothing behind (the intermediate ingress->services join is
 			// closed again), the other bases keep running
